@@ -452,6 +452,36 @@ def fragSyms (m : Msa) : (UInt8 → Bool) × UInt8 :=
 def markFragmentsOld (m : Msa) (isFrag : Nat → Bool) : Msa :=
   { m with rows := m.rows.map fun r => if isFrag (rawLen m r) then maskEnds (fragSyms m).1 (fragSyms m).2 r else r }
 
+/-! ## esl_sq_FetchFromMSA (esl_sq.c): the ungapped sequence of one row, with its annotation dealigned in parallel -/
+
+structure Fetched where
+  name : Bytes
+  acc : Bytes
+  desc : Bytes
+  source : Bytes
+  seq : Bytes                       -- residues only (text, or digital codes)
+  ss : Option Bytes
+  xr : List (Bytes × Bytes)         -- every GR line of this sequence
+  deriving Repr, DecidableEq, Inhabited
+
+/-- the cells `esl_strdealign(.., "-_.~")` / `esl_abc_XDealign` drop -/
+def fetchIsGap (m : Msa) (c : UInt8) : Bool :=
+  match m.abc with
+  | some a => if m.isDigital then (a.xIsGap c || a.xIsMissing c) else ([0x2d, 0x5f, 0x2e, 0x7e] : Bytes).contains c
+  | none => ([0x2d, 0x5f, 0x2e, 0x7e] : Bytes).contains c
+
+/-- `esl_sq_FetchFromMSA(msa, which, &sq)`; `none` = `eslEOD` (no such sequence) -/
+def fetchFromMSA (m : Msa) (which : Nat) : Option Fetched :=
+  if which ≥ m.nseq then none
+  else
+    let row := (m.rows.getD which []).take m.alen
+    let keep := row.map (fun c => !fetchIsGap m c)
+    some { name := m.sqname.getD which [], acc := (m.sqacc.getD which none).getD [], desc := (m.sqdesc.getD which none).getD [],
+           source := m.name.getD [],
+           seq := maskFilter keep row,
+           ss := (m.ss.getD which none).map (maskFilter keep),
+           xr := m.gr.filterMap (fun t => (t.2.getD which none).map (fun v => (t.1, maskFilter keep v))) }
+
 /-! ## esl_msa_Validate -/
 
 def lenOk (alen : Nat) : Option Bytes → Bool
